@@ -10,6 +10,9 @@ open Golem.Props.C06
 #print axioms sel_never_blockedPlain
 #print axioms pool_cancel_terminates
 #print axioms pool_closes
+#print axioms single_emitted
+#print axioms lift_never_blockedPlain
+#print axioms fold_never_blockedPlain
 #print axioms filter_sel
 #print axioms partition_sel
 #print axioms takeWhile_sel
